@@ -71,6 +71,11 @@ var c19Templates = []c19t{
 	{"join-select", "SELECT FAULT(`y.c`) AS c FROM t x LEFT JOIN u y ON x.b = y.b", false},
 	{"join-derived-side", "SELECT * FROM (SELECT FAULT(b) AS b FROM t) x JOIN u y ON x.b = y.b", false},
 	{"nested-from", "SELECT FAULT(a) AS a FROM m", false},
+	{"join-on", "SELECT * FROM t x JOIN u y ON x.a >= y.c AND FAULTB(y.c)", false},
+	{"join-on-left", "SELECT * FROM t x LEFT JOIN u y ON FAULTB(x.a) AND x.a >= y.c", false},
+	{"join-on-right", "SELECT * FROM t x RIGHT JOIN u y ON x.a >= y.c AND FAULTB(y.c)", false},
+	{"join-on-parallel", "SELECT * FROM t x PARALLEL JOIN u y ON x.a >= y.c AND FAULTB(y.c)", false},
+	{"join-on-or", "SELECT * FROM t x JOIN u y ON x.a = y.c OR FAULTB(x.a)", false},
 	{"raise-when-select", "SELECT RAISE_WHEN(id = {K}, 'boom'), id FROM t", false},
 	{"raise-when-having", "SELECT b, RAISE_WHEN(COUNT(*) > {K}, 'boom'), COUNT(*) AS c FROM t GROUP BY b", false},
 	{"raise-in-subquery", "SELECT id, (SELECT RAISE_WHEN(q = {K}, 'boom'), q FROM items) AS s FROM t", false},
@@ -95,6 +100,11 @@ var c19Templates = []c19t{
 	{"selector-index-range", "SELECT `items[7].q` AS v FROM t", true},
 	{"selector-wrong-shape", "SELECT `b[0]` AS v FROM t", true},
 	{"from-not-array", "SELECT id FROM `t[0].a`", true},
+	{"selector-parse-error-select", "SELECT `items[abc]` AS v FROM t", true},
+	{"selector-parse-error-where", "SELECT id FROM t WHERE `items[(0:1:x)]` IS NULL", true},
+	{"selector-parse-error-from", "SELECT id FROM `t[x]`", true},
+	{"selector-parse-error-continued", "SELECT `items::[x]` AS v FROM t", true},
+	{"selector-parse-error-subquery", "SELECT id, (SELECT q FROM `items[y]`) AS s FROM t", true},
 	{"limit-not-integer", "SELECT id FROM t LIMIT 1.5", true},
 }
 
@@ -254,13 +264,19 @@ func (p *c19) RunCase(i int) *core.CaseResult {
 				}
 			}
 		case t.static:
-			doc := p.doc(tbl)
-			o := run(doc, t.sql, 0)
-			r.Outcomes = append(r.Outcomes, o.Status())
-			mustFail(o, t.sql, tbl, 0, doc)
+			// a query that fails by itself must fail every time: three runs on fresh documents (a
+			// failure must not leave anything behind - in the document or in process-wide state -
+			// that makes the same query succeed later)
+			for attempt := 0; attempt < 3; attempt++ {
+				doc := p.doc(tbl)
+				o := run(doc, t.sql, 0)
+				r.Outcomes = append(r.Outcomes, o.Status())
+				mustFail(o, t.sql, tbl, -attempt, doc)
+			}
 		default:
 			doc := p.doc(tbl)
 			o := run(doc, t.sql, 0)
+			o0 := o
 			n := faultCount
 			if o.Failed() {
 				r.Fail("C19|"+t.clause+"|fault-free-run-fails", fmt.Sprintf("%s on %s fails without any injected fault: %v %s", t.sql, gq.Render(doc["t"]), o.Err, o.Panic), map[string]any{"sql": t.sql, "doc": p.doc(tbl)})
@@ -276,15 +292,27 @@ func (p *c19) RunCase(i int) *core.CaseResult {
 					continue
 				}
 				mustFail(o, t.sql, tbl, k, doc)
+				// the failed query's own fault-free twin, on the same document
+				twin := run(doc, t.sql, 0)
+				if got, want := outcome(twin), outcome(o0); got != want && !p.kinds(t).bag {
+					r.Fail("C19|"+t.clause+"|twin-differs", fmt.Sprintf("after %s failed at invocation %d, the same query without fault returns %s on the same document; on a fresh document it returned %s", t.sql, k, got, want), map[string]any{"sql": t.sql, "fault_at": k, "doc": p.doc(tbl)})
+				}
 			}
 		}
 	}
 	return r
 }
 
+type c19kind struct{ bag bool }
+
+// kinds: joins return a multiset (the row order is not fixed), so the twin comparison is skipped for them
+func (p *c19) kinds(t *c19t) c19kind {
+	return c19kind{bag: strings.Contains(t.sql, " JOIN ")}
+}
+
 func (p *c19) Meta() core.Meta {
 	return core.Meta{
-		Rule: "one case per template: 49 templates with the fault point FAULT(x) / RAISE_WHEN in every clause position (WHERE connectives and operators, select list incl. star / arithmetic / CASE / function arguments / ONCE, DISTINCT, ORDER BY, LIMIT, HAVING, grouped and whole-table aggregates, CTE body / consumer / chain / double reference, derived table and consumer, select-list / IN / EXISTS subqueries incl. <-, union branches, join consumers and derived join sides, nested FROM) and 23 templates that fail by themselves (type errors in every clause incl. join ON, GROUP BY / ORDER BY of non-columns, unknown functions, arity, out-of-range indices, wrong shapes, non-array FROM, non-integer LIMIT), on every table of 1..2 (thorough 3) rows over 3 archetypes; each fault template is run fault-free to count N invocations and then once per k = 1..N. Oracle: New/Exec report an error and return no rows; then 6 follow-up queries on the same document object equal their results on a pristine copy. non-trivial = a failure was injected and surfaced",
+		Rule: "one case per template: 54 templates with the fault point FAULT(x) / RAISE_WHEN in every clause position (WHERE connectives and operators, select list incl. star / arithmetic / CASE / function arguments / ONCE, DISTINCT, ORDER BY, LIMIT, HAVING, grouped and whole-table aggregates, CTE body / consumer / chain / double reference, derived table and consumer, select-list / IN / EXISTS subqueries incl. <-, union branches, join consumers, derived join sides and join ON expressions for every join kind, nested FROM) and 28 templates that fail by themselves (each run three times) (type errors in every clause incl. join ON, GROUP BY / ORDER BY of non-columns, unknown functions, arity, out-of-range indices, wrong shapes, non-array FROM, non-integer LIMIT), on every table of 1..2 (thorough 3) rows over 3 archetypes; each fault template is run fault-free to count N invocations and then once per k = 1..N. Oracle: New/Exec report an error and return no rows; then 6 follow-up queries on the same document object equal their results on a pristine copy. non-trivial = a failure was injected and surfaced",
 		Assumptions: []string{"only synchronously evaluated steps are claimed (ASYNC / SPIN failures go to the UnReportedErrors handler)", "the type error of t2 strikes on the last row only, so a partial result would be visible"},
 		Bounds:      map[string]any{"templates": len(c19Templates), "tables": len(p.tables), "followups": len(c19Followups)},
 		Exhaustive:  true,
